@@ -91,7 +91,14 @@ Section Pushdown.
     | PFilter p c =>
         let cs := split_conj p in
         let '(c', h) := push (avail ++ cs) c in
-        (match subtract cs h with [] => c' | rest => PFilter (join_and rest) c' end, h)
+        (* updateFilterNode: handled conjuncts are removed; a Filter directly below is merged into this one *)
+        (match subtract cs h with
+         | [] => c'
+         | rest => match c' with
+                   | PFilter x c'' => PFilter (join_and (rest ++ [x])) c''
+                   | _ => PFilter (join_and rest) c'
+                   end
+         end, h)
     | PJoin false p a b =>
         let cs := split_conj p in
         let '(a', h1) := push (avail ++ cs) a in
